@@ -1,8 +1,11 @@
 """C06 Pre-release gating and filter() follow the PEP 440 policy."""
+import os
 from core import Case
 import gen, gen_sets as G
 
 IMPL_MODULE = "sets_impl"
+# the iteration order of the member frozenset depends on the hash seed: vary it with the run seed (every observation must be invariant)
+IMPL_ENV = {"PYTHONHASHSEED": str(int(os.environ.get("VERIF_SEED", "0") or 0) % 4294967295)}
 RULE = ("operation histories on one Specifier / SpecifierSet / empty SpecifierSet object: constructor override x later assignments to "
         ".prereleases (True/False/None) interleaved with contains / `in` / filter / .prereleases reads, call argument None/True/False, "
         "installed None/True/False; candidate lists of mixed str / Version items (related to the clause versions, with and without final "
